@@ -192,10 +192,10 @@ func parsigdbProbe(pc *probe, k signedKind, ver eth2spec.DataVersion) {
 
 	mk := func(concurrent bool) (*parsigdb.MemDB, *fan, *fan) {
 		db := parsigdb.NewMemDB(threshold, newDeadliner(), meta)
-		mut := pc.rng.Intn(2)
+		mut := pc.rng.Intn(pc.nsubs)
 		intF := &fan{pc: pc, name: "internal fan-out", mutator: mut, concurrent: concurrent}
-		thrF := &fan{pc: pc, name: "threshold fan-out", mutator: 1 - mut, concurrent: concurrent}
-		for s := 0; s < 2; s++ {
+		thrF := &fan{pc: pc, name: "threshold fan-out", mutator: (mut + 1) % pc.nsubs, concurrent: concurrent}
+		for s := 0; s < pc.nsubs; s++ {
 			s := s
 			db.SubscribeInternal(func(_ context.Context, _ core.Duty, set core.ParSignedDataSet) error {
 				intF.recv(s, set)
@@ -232,8 +232,8 @@ func parsigdbProbe(pc *probe, k signedKind, ver eth2spec.DataVersion) {
 		inputs[fmt.Sprintf("caller's input (share %d)", i+1)] = pc.reach(in)
 		ins = append(ins, in)
 		if i == 0 {
-			if n := len(intF.snapshot()); n != 2 {
-				pc.inconclusive("internal subscribers got %d deliveries, want 2", n)
+			if n := len(intF.snapshot()); n != pc.nsubs {
+				pc.inconclusive("internal subscribers got %d deliveries, want %d", n, pc.nsubs)
 				return
 			}
 			pc.checkFan(intF, intF.snapshot(), inputs, func(*delivery) string { return fp(sets[0]) }, "after StoreInternal returned")
@@ -244,8 +244,8 @@ func parsigdbProbe(pc *probe, k signedKind, ver eth2spec.DataVersion) {
 	pc.phases++
 	pc.checkFan(intF, intF.snapshot(), inputs, func(*delivery) string { return fp(sets[0]) }, "after the caller scribbled all its inputs")
 	thr := thrF.snapshot()
-	if len(thr) != 2 {
-		pc.inconclusive("threshold subscribers got %d deliveries, want 2", len(thr))
+	if len(thr) != pc.nsubs {
+		pc.inconclusive("threshold subscribers got %d deliveries, want %d", len(thr), pc.nsubs)
 		return
 	}
 	for _, d := range intF.snapshot() { // the two fan-outs must not share memory with each other either
@@ -429,8 +429,8 @@ func sigaggProbe(pc *probe, k signedKind, ver eth2spec.DataVersion) {
 		if err != nil {
 			panic(err)
 		}
-		f := &fan{pc: pc, name: "sigagg fan-out", mutator: pc.rng.Intn(2), concurrent: concurrent}
-		for s := 0; s < 2; s++ {
+		f := &fan{pc: pc, name: "sigagg fan-out", mutator: pc.rng.Intn(pc.nsubs), concurrent: concurrent}
+		for s := 0; s < pc.nsubs; s++ {
 			s := s
 			agg.Subscribe(func(_ context.Context, _ core.Duty, set core.SignedDataSet) error {
 				f.recv(s, set)
@@ -456,7 +456,7 @@ func sigaggProbe(pc *probe, k signedKind, ver eth2spec.DataVersion) {
 			pc.anomaly("restore-rejected", fmt.Sprintf("second Aggregate of identical shares failed: %v", err))
 		}
 		inputs[fmt.Sprintf("caller's input (call %d)", round)] = pc.reach(in)
-		if n := len(f.snapshot()); n != 2*round {
+		if n := len(f.snapshot()); n != pc.nsubs*round {
 			pc.inconclusive("sigagg subscribers got %d deliveries after call %d", n, round)
 			return
 		}
@@ -508,7 +508,7 @@ func sigaggProbe(pc *probe, k signedKind, ver eth2spec.DataVersion) {
 		cinputs[fmt.Sprintf("input of goroutine %d", i)] = pc.reach(cins[i])
 	}
 	dels := f.snapshot()
-	if len(dels) != 2*g && len(errs) == 0 {
+	if len(dels) != pc.nsubs*g && len(errs) == 0 {
 		pc.inconclusive("sigagg subscribers got %d deliveries from %d concurrent calls", len(dels), g)
 	}
 	pc.checkFan(f, dels, cinputs, expect, "after the concurrent phase")
